@@ -32,9 +32,18 @@ def main():
             out[n] = digests.library_digest(lib)
         except Exception as exc:
             out[n] = 'ERROR %s: %s' % (type(exc).__name__, exc)
+    schemes = {}
+    from pgradd.GroupAdd.Scheme import GroupAdditivityScheme
+    for n in names:
+        try:
+            schemes[n] = digests.digest_of(digests.scheme_state(
+                GroupAdditivityScheme.Load(n)))
+        except Exception as exc:
+            schemes[n] = 'ERROR %s: %s' % (type(exc).__name__, exc)
     import pgradd
     sys.stdout.write('\n@@REPORT@@' + json.dumps({
-        'digests': out, 'opened': sorted(set(opened)),
+        'digests': out, 'scheme_digests': schemes,
+        'opened': sorted(set(opened)),
         'pgradd_file': pgradd.__file__,
         'env': os.environ.get('pgradd_DATA_DIR')}) + '\n')
 
